@@ -40,6 +40,7 @@ type Config struct {
 	NoLogger       bool   `json:"no_logger"`
 	DropClientCert bool   `json:"drop_client_cert"` // take no part in AutoMTLS (impostor / pre-AutoMTLS build)
 	DropMuxEnv     bool   `json:"drop_mux_env"`     // behave like a plugin built before the multiplexing field existed
+	JitterUs       int    `json:"jitter_us"`        // sleep up to this many microseconds at every verifhook point (schedule perturbation)
 }
 
 var (
@@ -169,6 +170,11 @@ func pluginAccept(mux *plugin.MuxBroker, gb *plugin.GRPCBroker, r vp.Req) vp.Res
 }
 
 func pluginDial(mux *plugin.MuxBroker, gb *plugin.GRPCBroker, r vp.Req) vp.Resp {
+	if r.K == "crash" {
+		// promise to dial, die instead
+		go func() { time.Sleep(time.Duration(r.N) * time.Millisecond); os.Exit(3) }()
+		return vp.Resp{ID: r.ID}
+	}
 	if r.N > 0 {
 		time.Sleep(time.Duration(r.N) * time.Millisecond)
 	}
